@@ -144,6 +144,12 @@ func (ps *PathSet) walk(t reflect.Type, v reflect.Value, p []string, kind string
 			ps.add(ext(p, "zz"), sub("unparsable-key"))
 			ps.add(ext(ext(p, "zz"), "0"), sub("unparsable-key"))
 			ps.add(ext(p, ""), sub("unparsable-key"))
+			if kt.Kind() >= reflect.Int && kt.Kind() <= reflect.Uint64 {
+				// the edges of the key type's parser: a minus sign (an error for unsigned keys), the largest
+				// unsigned 64-bit number (an error for signed keys, wraps for narrow unsigned ones)
+				ps.add(ext(p, "-1"), sub("negative-key"))
+				ps.add(ext(p, "18446744073709551615"), sub("huge-key"))
+			}
 			if len(keys) > 0 && (kt.Kind() >= reflect.Int && kt.Kind() <= reflect.Uint64) {
 				k := keys[0]
 				for k.Kind() == reflect.Ptr && !k.IsNil() {
